@@ -119,7 +119,51 @@ def scenario_plain(rng):
     return None
 
 
+def scenario_fill_times():
+    """trade timestamps follow the fills: in both simulators a limit entry and a take-profit that fill mid-bar of a 5m route stamp
+    opened_at / closed_at with the end of the 1m candle that reached their price"""
+    import numpy as np
+    from jesse import research
+    from jesse.strategies import Strategy
+    from jesse.store import store
+    TS0 = 1609459200000
+    n = 40
+    rows = [[TS0 + i * 60000, 100.0, 100.0, 100.2, 99.8, 10.0] for i in range(n)]
+    rows[7] = [rows[7][0], 100.0, 100.0, 100.2, 97.5, 10.0]       # entry limit 98 reached in minute 7
+    rows[18] = [rows[18][0], 100.0, 100.0, 103.5, 99.8, 10.0]     # take-profit 103 reached in minute 18
+    got = {}
+
+    class S(Strategy):
+        def should_long(self): return self.index == 0
+        def should_short(self): return False
+        def should_cancel_entry(self): return False
+        def go_long(self): self.buy = (1, 98.0); self.take_profit = (1, 103.0)
+        def go_short(self): pass
+
+        def before_terminate(self):
+            got['trades'] = [(t.opened_at, t.closed_at, t.holding_period) for t in store.completed_trades.trades]
+    cfg = {'starting_balance': 10000, 'fee': 0, 'type': 'futures', 'futures_leverage': 2, 'futures_leverage_mode': 'cross',
+           'exchange': 'Sandbox', 'warm_up_candles': 0}
+    for fast in (False, True):
+        got.clear()
+        research.backtest(cfg, [{'exchange': 'Sandbox', 'strategy': S, 'symbol': 'BTC-USDT', 'timeframe': '5m'}], [],
+                          {'Sandbox-BTC-USDT': {'exchange': 'Sandbox', 'symbol': 'BTC-USDT', 'candles': np.array(rows, dtype=float)}}, fast_mode=fast)
+        want = (TS0 + 8 * 60000, TS0 + 19 * 60000, 11 * 60.0)
+        tr = got.get('trades') or []
+        if len(tr) != 1 or tuple(float(x) for x in tr[0]) != tuple(float(x) for x in want):
+            return (f'{"fast" if fast else "normal"} simulator, 5m route: entry limit reached in minute 7, take-profit in minute 18: trade '
+                    f'(opened_at, closed_at, holding_period) = {tr} but the fills happened at {want}')
+    return None
+
+
 def replay(pl):
+    if pl['obligation'].startswith('chunk-clock'):
+        try:
+            d = scenario_fill_times()
+        except Exception as ex:
+            import traceback
+            return {'confirmed': False, 'error': f'{type(ex).__name__}: {ex}', 'stderr': traceback.format_exc()[-600:]}
+        return {'confirmed': bool(d), 'detail': d or 'trade timestamps equal the fill minutes in both simulators'}
     ob = pl['obligation']
     m = pl['m']
     rng = random.Random(pl.get('seed', 0))
